@@ -22,6 +22,7 @@ import (
 	"runtime/debug"
 	"strconv"
 	"strings"
+	"time"
 
 	"github.com/synnaxlabs/arc"
 	stlmath "github.com/synnaxlabs/arc/stl/math"
@@ -159,6 +160,8 @@ func trapClass(err error) string {
 		return "pow_zero_neg"
 	case strings.Contains(s, "stack overflow"):
 		return "stack_overflow"
+	case strings.Contains(s, "context deadline exceeded") || strings.Contains(s, "module closed"):
+		return "timeout"
 	}
 	if len(s) > 160 {
 		s = s[:160]
@@ -239,10 +242,21 @@ func runCase(ctx context.Context, rt wazero.Runtime, c tcase) (res result) {
 		for i, s := range av {
 			args[i], _ = strconv.ParseUint(s, 10, 64)
 		}
-		out, err := f.Call(ctx, args...)
+		cctx, cancel := context.WithTimeout(ctx, 3*time.Second)
+		out, err := f.Call(cctx, args...)
+		cancel()
 		if err != nil {
 			tc := trapClass(err)
 			res.Results = append(res.Results, callRes{Trap: &tc})
+			if tc == "timeout" {
+				// the module was closed by the runtime: instantiate a fresh one for the next calls
+				mod2, ierr := rt.InstantiateModule(ctx, cm, wazero.NewModuleConfig().WithName(""))
+				if ierr != nil {
+					break
+				}
+				defer mod2.Close(ctx)
+				f = mod2.ExportedFunction(fn)
+			}
 			continue
 		}
 		s := ""
@@ -276,9 +290,9 @@ func firstLines(s string, n int) string {
 
 func main() {
 	ctx := context.Background()
-	rt := wazero.NewRuntimeWithConfig(ctx, wazero.NewRuntimeConfigCompiler())
+	rt := wazero.NewRuntimeWithConfig(ctx, wazero.NewRuntimeConfigCompiler().WithCloseOnContextDone(true))
 	if os.Getenv("C19_INTERP") != "" {
-		rt = wazero.NewRuntimeWithConfig(ctx, wazero.NewRuntimeConfigInterpreter())
+		rt = wazero.NewRuntimeWithConfig(ctx, wazero.NewRuntimeConfigInterpreter().WithCloseOnContextDone(true))
 	}
 	if _, err := stlmath.NewHost(ctx, rt); err != nil {
 		fmt.Fprintln(os.Stderr, "math host:", err)
